@@ -18,7 +18,7 @@ import numpy as np
 from hypothesis import strategies as st
 
 from .. import gen, genheat
-from ..recipe import abbreviate, build, exc_sig, res_tables
+from ..recipe import RELOADS, abbreviate, build, exc_sig, reload_net, res_tables
 from ..runner import Finding, Outcome, derive_seed, run_given
 
 RULE = ("driver: scripts of per-iteration (errors per unknown, residual) incl. 0, tiny, huge, nan, inf; max_iter 0..12; both "
@@ -450,7 +450,8 @@ def history_case(draw):
         base["mode"] = "hydraulics"
     steps = draw(st.lists(st.tuples(st.sampled_from(["ok", "ok", "overload", "max_iter0", "max_iter1", "zero_tol", "no_supply",
                                                      "automatic", "other_mode"]),
-                                    st.integers(0, 10)), min_size=2, max_size=6))
+                                    st.integers(0, 10),
+                                    st.sampled_from(["none", "none", "none"] + RELOADS)), min_size=2, max_size=6))
     return {"kind": "history", "recipe": rec, "options": base, "steps": [list(s) for s in steps]}
 
 
@@ -467,7 +468,17 @@ def eval_history(case):
     hc = "heat_consumer" in net and len(net.heat_consumer) > 0
     feeders = [t for t in ("ext_grid", "circ_pump_pressure", "circ_pump_mass") if t in net and len(net[t])]
     orig = {t: net[t].copy() for t in feeders + ([load_tbl] if load_tbl else []) + (["heat_consumer"] if hc else [])}
-    for step, x in case["steps"]:
+    preps = set()
+    for stp in case["steps"]:
+        step, x = stp[0], stp[1]
+        prep = stp[2] if len(stp) > 2 else "none"
+        if prep != "none" and seq:
+            # the user saved / loaded / copied the net or post-processed a result table since the last calculation
+            try:
+                net = reload_net(net, prep)
+            except Exception as e:
+                return Outcome(discard="reload:%s:%s" % (prep, type(e).__name__))
+            preps.add(prep)
         for t, df in orig.items():
             net[t] = df.copy()
         opts = dict(base)
@@ -500,7 +511,7 @@ def eval_history(case):
         seq.append(status)
     tr = {(a == "ok", b == "ok") for a, b in zip(seq[:-1], seq[1:])}
     nontriv = (True, False) in tr or (False, True) in tr
-    labels = {"history", "len:%d" % len(seq)} | {"status:" + s for s in seq}
+    labels = {"history", "len:%d" % len(seq)} | {"status:" + s for s in seq} | {"between_runs:" + p_ for p_ in preps}
     if (True, False) in tr:
         labels.add("success_then_failure")
     if (False, True) in tr:
